@@ -30,6 +30,15 @@ enum Consumer {
     SetCtrl(bool),
 }
 
+/// what the spy scancode set (dynobj::SpySet) makes of its inner decoder's answer
+fn spy_quirk(spying: bool, b: u8, r: Res) -> Res {
+    if spying && b == 0xFE && matches!(r, Res::Err(_)) {
+        Res::Err(pc_keyboard::Error::ParityError)
+    } else {
+        r
+    }
+}
+
 fn dk_hash(d: &Option<DecodedKey>) -> u64 {
     match d {
         None => 0,
@@ -411,7 +420,7 @@ impl Scenario for Full {
                                 feed_byte_models(b, &mut m2, &mut m1);
                                 mirror_bytes += 1;
                                 mirror_last = b;
-                                Res::of(&mir.set.advance_state(b))
+                                spy_quirk(spying, b, Res::of(&mir.set.advance_state(b)))
                             }
                         };
                         env.cov.api_calls += 3;
@@ -442,7 +451,7 @@ impl Scenario for Full {
                                     feed_byte_models(b, &mut m2, &mut m1);
                                     mirror_bytes += 1;
                                 mirror_last = b;
-                                Res::of(&mir.set.advance_state(b))
+                                spy_quirk(spying, b, Res::of(&mir.set.advance_state(b)))
                                 }
                             };
                             let _ = fr.add_bit(bit);
@@ -483,7 +492,7 @@ impl Scenario for Full {
                             feed_byte_models(b, &mut m2, &mut m1);
                             mirror_bytes += 1;
                             mirror_last = b;
-                            Res::of(&mir.set.advance_state(b))
+                            spy_quirk(spying, b, Res::of(&mir.set.advance_state(b)))
                         }
                     };
                     env.cov.api_calls += 3;
@@ -527,7 +536,7 @@ impl Scenario for Full {
                     feed_byte_models(b, &mut m2, &mut m1);
                     mirror_bytes += 1;
                     mirror_last = b;
-                    let rm = Res::of(&mir.set.advance_state(b));
+                    let rm = spy_quirk(spying, b, Res::of(&mir.set.advance_state(b)));
                     env.cov.api_calls += 2;
                     env.cov.evaluations += 1;
                     h.mix(rk.hash());
@@ -1031,6 +1040,13 @@ impl Scenario for Chaos {
                     // operations too: formatting and comparing must return normally in any state
                     let text = format!("{:?} {:?} {:?} {:?}", ps2, kb1.get_modifiers(), kb2.get_modifiers().clone() == *kb1.get_modifiers(), pc_keyboard::Modifiers::default());
                     h.mix(text.len() as u64 & 1);
+                    {
+                        use std::hash::{Hash, Hasher};
+                        let mut hs = std::collections::hash_map::DefaultHasher::new();
+                        kb1.get_modifiers().hash(&mut hs);
+                        kb2.get_modifiers().hash(&mut hs);
+                        let _ = hs.finish(); // (value not used: DefaultHasher is not part of the log)
+                    }
                     env.cov.probe("debug_and_eq_impls_of_public_types");
                 }
                 Op::Edge { bit } => {
